@@ -1,8 +1,8 @@
 // C12 — reload handles (sequential part). Appended to tracing-subscriber/src/reload.rs.
-static REBUILDS: VAtomicUsize = VAtomicUsize::new(0);
-static LOCK_PTR: VAtomicUsize = VAtomicUsize::new(0);
-static LOCK_WAS_FREE: VAtomicUsize = VAtomicUsize::new(0);
-static SEEN_AT_REBUILD: VAtomicUsize = VAtomicUsize::new(99);
+vstatic!(REBUILDS: VAtomicUsize = VAtomicUsize::new(0));
+vstatic!(LOCK_PTR: VAtomicUsize = VAtomicUsize::new(0));
+vstatic!(LOCK_WAS_FREE: VAtomicUsize = VAtomicUsize::new(0));
+vstatic!(SEEN_AT_REBUILD: VAtomicUsize = VAtomicUsize::new(99));
 /// recording stand-in for tracing_core::callsite::rebuild_interest_cache (the real one is under contract in C01):
 /// notes that it ran, whether the reload lock was free at that moment and which value a reader sees
 fn rebuild_stub() {
